@@ -439,6 +439,7 @@ func raceMain(args []string) int {
 			hashes[ri] = hashLines(append([]string{build[0], strconv.Itoa(len(build))}, lists[ri]...))
 		}
 		wide := bst.wide
+		shared.SetTrack(false) // the adapter is shared by the readers: it must not keep any state of its own
 		var startB, doneB sync.WaitGroup
 		startB.Add(1)
 		for ri := 0; ri < R; ri++ {
